@@ -450,6 +450,10 @@ package client
 //@ closure [C08,C09] field_access Conn.out in (*Conn).Raw, (*Conn).send, (*Conn).drainOut, (*Conn).initialise
 //@ closure [C10] callers (*Conn).rateLimit in (*Conn).write
 //@ closure [C08,C09,C10] callers (*Conn).write in (*Conn).send
+//@ closure [C08,C09] callers bufio.(*Writer).WriteString in (*Conn).write
+//@ closure [C08,C09] callers bufio.(*Writer).Flush in (*Conn).write
+//@ closure [C08,C09] field_access Conn.io in (*Conn).write, (*Conn).recv, (*Conn).postConnect, (*Conn).initialise
+//@ closure [C09] recvs_on Conn.out in (*Conn).send, (*Conn).drainOut
 
 // ---------------------------------------------------------------------------
 // nick generator (C17)
